@@ -130,10 +130,10 @@ def write_pcap(path, items, *, endian="<", nano=False):
         if it[0] != "pkt":
             continue
         _, ts_us, frame = it
-        if not isinstance(ts_us, int):
-            ts_us = int(Fraction(ts_us) * 1_000_000)
-        sec, us = divmod(ts_us, 1_000_000)
-        out += struct.pack(e + "IIII", sec, us * (1000 if nano else 1), len(frame), len(frame)) + frame
+        t = Fraction(ts_us, 1_000_000) if isinstance(ts_us, int) else Fraction(ts_us)
+        unit = 10 ** 9 if nano else 10 ** 6
+        sec, sub = divmod(int(t * unit), unit)          # exact for times that are multiples of the file's unit, floored otherwise
+        out += struct.pack(e + "IIII", sec, sub, len(frame), len(frame)) + frame
     with open(path, "wb") as f:
         f.write(out)
 
